@@ -28,8 +28,8 @@ import (
 	"gitlab.com/yawning/obfs4.git/transports"
 )
 
-// verifRecConn accepts and records writes; every Read fails with endErr.
-type verifRecConn struct {
+// verifKeysRecConn accepts and records writes; every Read fails with endErr.
+type verifKeysRecConn struct {
 	mu     sync.Mutex
 	buf    []byte
 	endErr error
@@ -37,19 +37,19 @@ type verifRecConn struct {
 	raddr  net.Addr
 }
 
-func (c *verifRecConn) Read([]byte) (int, error) { return 0, c.endErr }
-func (c *verifRecConn) Write(p []byte) (int, error) {
+func (c *verifKeysRecConn) Read([]byte) (int, error) { return 0, c.endErr }
+func (c *verifKeysRecConn) Write(p []byte) (int, error) {
 	c.mu.Lock()
 	c.buf = append(c.buf, p...)
 	c.mu.Unlock()
 	return len(p), nil
 }
-func (c *verifRecConn) Close() error                     { return nil }
-func (c *verifRecConn) LocalAddr() net.Addr              { return c.laddr }
-func (c *verifRecConn) RemoteAddr() net.Addr             { return c.raddr }
-func (c *verifRecConn) SetDeadline(time.Time) error      { return nil }
-func (c *verifRecConn) SetReadDeadline(time.Time) error  { return nil }
-func (c *verifRecConn) SetWriteDeadline(time.Time) error { return nil }
+func (c *verifKeysRecConn) Close() error                     { return nil }
+func (c *verifKeysRecConn) LocalAddr() net.Addr              { return c.laddr }
+func (c *verifKeysRecConn) RemoteAddr() net.Addr             { return c.raddr }
+func (c *verifKeysRecConn) SetDeadline(time.Time) error      { return nil }
+func (c *verifKeysRecConn) SetReadDeadline(time.Time) error  { return nil }
+func (c *verifKeysRecConn) SetWriteDeadline(time.Time) error { return nil }
 
 func verifKeysRun(w []string) string {
 	if len(w) != 5 {
@@ -101,9 +101,9 @@ func verifKeysRun(w []string) string {
 	defer close(stop)
 
 	var mu sync.Mutex
-	var conns []*verifRecConn
+	var conns []*verifKeysRecConn
 	verifProxyConn = func() net.Conn {
-		c := &verifRecConn{endErr: endErr, laddr: laddr, raddr: raddr}
+		c := &verifKeysRecConn{endErr: endErr, laddr: laddr, raddr: raddr}
 		mu.Lock()
 		conns = append(conns, c)
 		mu.Unlock()
